@@ -47,7 +47,8 @@ S = Suite(
           "ustar / z0 / both, scalar and list forcing, 1-3 towers (different heights, lat/lon, "
           "with and without reference, reference origins on the equator / Greenwich meridian), "
           "every time index of 1-3 steps, ideal and user flux; sequences of 3-4 configurations "
-          "in one process differing in src_loc / flux shape / domain only; "
+          "in one process differing in src_loc / flux shape / domain only; one YAML path rewritten with three "
+          "contents and re-loaded, the earlier result modified in between; "
           "grids <= 20x16, nz <= 8; quick 40 configurations, thorough 400",
     rule="np.array_equal on grid, conc, flx; == on tower_name, tower_xy, timestamp, step "
          "parameters; dataclass == for YAML against dictionary",
@@ -216,6 +217,37 @@ def yaml_equals_dict(raw):
                 if getattr(a, k) != getattr(b, k)]
         detail = "YAML and dictionary differ in " + ", ".join(diff)
     return Verdict(ok, detail, key="yaml-differs-from-dict")
+
+
+@S.kind("yaml-history")
+def yaml_history(raws):
+    """The SAME path is rewritten with other contents and loaded again (and the object returned by an earlier load is
+    modified in between): every load must equal the dictionary currently in the file."""
+    import yaml
+    from bldfm.config_parser import load_config, parse_config_dict
+    fd, path = tempfile.mkstemp(suffix=".yaml", dir=os.getcwd())
+    os.close(fd)
+    try:
+        for k, raw in enumerate(raws):
+            with open(path, "w") as f:
+                yaml.safe_dump(raw, f)
+            a = load_config(path)
+            b = parse_config_dict(copy.deepcopy(raw))
+            if a != b:
+                diff = [x for x in ("domain", "towers", "met", "solver", "output", "parallel") if getattr(a, x) != getattr(b, x)]
+                return Verdict(False, "load %d of the same path (file rewritten%s): differs from the dictionary in the file in %s"
+                               % (k, " / earlier result modified" if k else "", ", ".join(diff)), key="yaml-load-depends-on-history")
+            # the caller is free to modify what it got
+            a.domain.nx = a.domain.nx + 2
+            a.met.wind_speed = 99.0
+            a.towers[0].z_m = a.towers[0].z_m + 1.0
+            c = load_config(path)
+            if c != b:
+                return Verdict(False, "load %d repeated after the caller modified the first result: differs from the dictionary in the file" % k,
+                               key="yaml-load-depends-on-history")
+    finally:
+        os.unlink(path)
+    return Verdict(True, "%d contents through one path" % len(raws), nontrivial=len(raws) > 1)
 
 
 # -------------------------------------------------------------------------------- generator
@@ -389,10 +421,14 @@ def generate(tier, rng):
     for rep in range(3 if tier == "thorough" else 1):
         for raws in _sequences(rng):
             yield "pipeline-sequence", dict(raws=raws)
+    prev = None
     for k in range(n_cfg):
         force = _CORNERS[k] if k < len(_CORNERS) else None
         raw, n = random_config(rng, force)
         yield "yaml-equals-dict", dict(raw=raw)
+        if prev is not None and k % 4 == 1:
+            yield "yaml-history", dict(raws=[prev, raw, prev])
+        prev = raw
         dom = raw["domain"]
         for ti in range(len(raw["towers"])):
             for mi in range(n):
